@@ -27,7 +27,7 @@ func init() {
 				"evalPipeCallExpression, and a jet.Func receives args and piped value unchanged; (C14.once) a pipeline evaluates Cmds[0] once and each later command once, in order, feeding the previous " +
 				"value; (C14.count) evaluateArgs compares the argument count with NumIn (!=, or < for variadics) before evaluating any argument, and every reflect Convert there is guarded by " +
 				"ConvertibleTo with an error return; (C14.table) each built-in documented in docs/builtins.md as exposing a Go function is bound to exactly that function; slice and array share one " +
-				"implementation; len, isset, ints, map, exec, includeIfExists, dump, writeJson exist. (C14.count, continued) a conversion target taken from fnType.In(k) is used only where k is known to be a fixed position or Elem() was applied (a value piped into a purely variadic function is converted to the element type). (C14.once, continued) on a normally returning path a built-in fetches Arguments.Get(i) at most once per position (each Get evaluates the argument expression).",
+				"implementation; len, isset, ints, map, exec, includeIfExists, dump, writeJson exist. (C14.count, continued) a conversion target taken from fnType.In(k) is used only where k is known to be a fixed position or Elem() was applied (a value piped into a purely variadic function is converted to the element type). (C14.once, continued) on a normally returning path a built-in fetches Arguments.Get(i) at most once per position (each Get evaluates the argument expression). (C14.count) evaluateArgs returns argument values with a nil error only on paths on which `given != required` or `given < required` is known to be false (the locals are found by what defines them: len(CallArgs.Exprs), Type.NumIn()); ParseInto's argument loop carries no variable from one argument position to the next (a variable declared outside the loop that the body assigns and reads is given a fresh value, unconditionally, at the start of every iteration).",
 			NotDecided:  "the result of reflect.Value.Call; variadic packing by reflect; conversion results; what the Go functions compute (stdlib).",
 			Assumptions: []string{"docs/builtins.md is the documentation the property refers to (a built-in copy of its table is used when the file cannot be parsed)"},
 			Trusted:     commonTrusted,
@@ -157,6 +157,8 @@ func shiftPredicate(p *an.Prog, f *an.Fn, cond ast.Expr) (string, bool) {
 
 func runC14(c *an.Ctx) {
 	c14paramType(c)
+	c14countChecked(c)
+	parseIntoPerArgument(c, "C14.count")
 	c14getOnce(c)
 	p := c.P
 	// ---------------------------------------------------------------- C14.shift
@@ -924,8 +926,17 @@ func convGuards(c *an.Ctx, rule string, only []string) {
 					continue
 				}
 				ro := an.ObjOf(info, rid)
+				// (what follows a block that ends in a return is not "afterwards" for an assignment inside it)
+				limit := f.Body.End()
+				for _, enc2 := range an.EnclosingStmts(f, as) {
+					if blk, isBlk := enc2.(*ast.BlockStmt); isBlk && len(blk.List) > 0 {
+						if _, isRet := blk.List[len(blk.List)-1].(*ast.ReturnStmt); isRet && blk.End() < limit {
+							limit = blk.End()
+						}
+					}
+				}
 				an.InspectOwn(f, func(m ast.Node) bool {
-					if uid, ok := m.(*ast.Ident); ok && uid.Pos() > as.End() && an.ObjOf(info, uid) == ro {
+					if uid, ok := m.(*ast.Ident); ok && uid.Pos() > as.End() && uid.Pos() < limit && an.ObjOf(info, uid) == ro {
 						// a later re-definition of the receiver variable ends its relevance
 						stale = fmt.Sprintf("%s is converted into %s, but the unconverted %s is still used afterwards (%s)", rid.Name, lid.Name, rid.Name, p.RelPos(uid.Pos()))
 					}
